@@ -136,12 +136,12 @@ def main(argv):
         from droopsa.props import PROPS
         worst = 0
         for pid in sorted(PROPS):
-            code, _, _, _, _ = run_property(pid, tier, only)
+            code, _, _, _, _ = run_property(pid, tier, only, write=not os.environ.get('VERIF_NOWRITE'))
             worst = max(worst, code) if code != 1 else (1 if worst != 2 else worst)
         return worst
     code = 0
     for pid in args:
-        c, _, _, _, _ = run_property(pid, tier, only)
+        c, _, _, _, _ = run_property(pid, tier, only, write=not os.environ.get('VERIF_NOWRITE'))
         code = max(code, c)
     return code
 
